@@ -64,8 +64,9 @@ type GuardSpec struct {
 type AllowSpec struct {
 	ID        string `json:"id"`
 	Func      string `json:"func"`
-	Kind      string `json:"kind"` // region-after-nil-check | call | write | read
+	Kind      string `json:"kind"` // region-after-nil-check | region-after-lookup-miss | call | write | read
 	AfterCall string `json:"after_call,omitempty"`
+	KeyCall   string `json:"key_call,omitempty"` // region-after-lookup-miss: method whose result is the look-up key
 	Callee    string `json:"callee,omitempty"`
 	Loc       string `json:"loc,omitempty"`
 	Class     string `json:"class"` // guard | private-object
@@ -80,7 +81,15 @@ type GlobalRefOK struct {
 	Reason string `json:"reason"`
 }
 
+// ImmutableSpec names a location that must never be written after package initialisation, with
+// the reason: memory of that name hangs below package-level objects that all module sets share.
+type ImmutableSpec struct {
+	Loc    string `json:"loc"`
+	Reason string `json:"reason"`
+}
+
 type Config struct {
+	Immutable    []ImmutableSpec `json:"immutable"`
 	Packages     []string      `json:"packages"`
 	ReaderRoots  []RootSpec    `json:"reader_roots"`
 	Guards       []GuardSpec   `json:"guards"`
@@ -797,21 +806,47 @@ func isNilConst(v ssa.Value) bool {
 	return ok && c.IsNil()
 }
 
-// missRegion: blocks of fn executed only when the result of the call to `callee` was nil.
-func (a *analyzer) missRegion(fi *fnInfo, callee string) map[*ssa.BasicBlock]bool {
+// missRegion: blocks of fn executed only when a value was nil.  The value is either the result
+// of the call to `callee` (kind region-after-nil-check) or, when keyCall is set, the result of a
+// map look-up whose key is directly the result of a call of the method keyCall
+// (kind region-after-lookup-miss: `m[n.NName()] == nil`).  "Only when": the blocks dominated by
+// the nil branch of an `if v != nil` / `if v == nil` whose condition is that comparison alone and
+// whose nil successor has no other predecessor.  A compound condition (`v != nil && ...`) makes
+// the continuation reachable from a second edge and leaves the region empty - the sites then
+// stay inside the claim.
+func (a *analyzer) missRegion(fi *fnInfo, callee, keyCall string) map[*ssa.BasicBlock]bool {
 	fn := fi.fn
-	var calls []ssa.Value
+	var vals []ssa.Value
 	for _, b := range fn.Blocks {
 		for _, ins := range b.Instrs {
-			if c, ok := ins.(*ssa.Call); ok {
-				if f := c.Call.StaticCallee(); f != nil && a.fnName(f) == callee {
-					calls = append(calls, c)
+			switch x := ins.(type) {
+			case *ssa.Call:
+				if f := x.Call.StaticCallee(); callee != "" && f != nil && a.fnName(f) == callee {
+					vals = append(vals, x)
+				}
+			case *ssa.Lookup:
+				if keyCall == "" || x.CommaOk {
+					continue
+				}
+				if _, isMap := x.X.Type().Underlying().(*types.Map); !isMap {
+					continue
+				}
+				if kc, ok := x.Index.(*ssa.Call); ok {
+					name := ""
+					if kc.Call.IsInvoke() {
+						name = kc.Call.Method.Name()
+					} else if f := kc.Call.StaticCallee(); f != nil {
+						name = f.Name()
+					}
+					if name == keyCall {
+						vals = append(vals, x)
+					}
 				}
 			}
 		}
 	}
-	isCall := func(v ssa.Value) bool {
-		for _, c := range calls {
+	isVal := func(v ssa.Value) bool {
+		for _, c := range vals {
 			if c == v {
 				return true
 			}
@@ -831,12 +866,15 @@ func (a *analyzer) missRegion(fi *fnInfo, callee string) map[*ssa.BasicBlock]boo
 		if !ok || (bo.Op != token.NEQ && bo.Op != token.EQL) {
 			continue
 		}
-		if !((isCall(bo.X) && isNilConst(bo.Y)) || (isCall(bo.Y) && isNilConst(bo.X))) {
+		if !((isVal(bo.X) && isNilConst(bo.Y)) || (isVal(bo.Y) && isNilConst(bo.X))) {
 			continue
 		}
 		miss := b.Succs[1]
 		if bo.Op == token.EQL {
 			miss = b.Succs[0]
+		}
+		if len(miss.Preds) != 1 {
+			continue // reachable from another edge too: not "only when nil"
 		}
 		for _, c := range fn.Blocks {
 			if miss.Dominates(c) {
@@ -855,8 +893,11 @@ func (a *analyzer) tag(cfg *Config) []int {
 			continue
 		}
 		var region map[*ssa.BasicBlock]bool
-		if al.Kind == "region-after-nil-check" {
-			region = a.missRegion(fi, al.AfterCall)
+		switch al.Kind {
+		case "region-after-nil-check":
+			region = a.missRegion(fi, al.AfterCall, "")
+		case "region-after-lookup-miss":
+			region = a.missRegion(fi, "", al.KeyCall)
 		}
 		for i := range fi.sites {
 			s := &fi.sites[i]
@@ -865,7 +906,7 @@ func (a *analyzer) tag(cfg *Config) []int {
 			}
 			hit := false
 			switch al.Kind {
-			case "region-after-nil-check":
+			case "region-after-nil-check", "region-after-lookup-miss":
 				hit = region[s.block]
 			case "call":
 				hit = s.kind == kCall && s.tgt == al.Callee
@@ -1106,6 +1147,9 @@ func main() {
 	for _, g := range cfg.Guards {
 		mtxSet[g.Mutex] = true
 	}
+	for _, im := range cfg.Immutable {
+		locSet[im.Loc] = true
+	}
 	locs, mtxs := sortedKeys(locSet), sortedKeys(mtxSet)
 	locID, mtxID := index(locs), index(mtxs)
 
@@ -1319,6 +1363,21 @@ func main() {
 			}
 		}
 	}
+	immutable := map[string]bool{}
+	for _, im := range cfg.Immutable {
+		immutable[im.Loc] = true
+	}
+	for f, fi := range a.fns {
+		if initOnly[f] {
+			continue
+		}
+		for _, s := range fi.sites {
+			if s.kind == kWrite && immutable[s.tgt] {
+				diags = append(diags, fmt.Sprintf("ImmutableLocations: %s writes %s through a pointer; memory of that name hangs below package-level objects shared by all module sets and must not be written after package initialisation (see immutable in allow.json)",
+					fi.name, s.tgt))
+			}
+		}
+	}
 	if goStmts > 0 {
 		diags = append(diags, fmt.Sprintf("ReaderDiscipline: the packages contain %d go statement(s)", goStmts))
 	}
@@ -1405,7 +1464,12 @@ func main() {
 	for i, g := range guards {
 		w("(%d,%d,%v)%s", g.loc, g.mtx, g.reads, comma(i, len(guards)))
 	}
-	w("]\n  goStmts := %d\n", goStmts)
+	var imm []int
+	for _, im := range cfg.Immutable {
+		imm = append(imm, locID[im.Loc])
+	}
+	sort.Ints(imm)
+	w("]\n  immutable := %s\n  goStmts := %d\n", natList(imm), goStmts)
 	w("\nend Goyang.Gen.Access\n")
 	if len(diags) > 0 {
 		w("\n/- DIAGNOSTICS of the translator (for the reader; not part of the proof, the verdict is the kernel's):\n")
@@ -1428,9 +1492,9 @@ func main() {
 	notesPath := strings.TrimSuffix(strings.TrimSuffix(*out, ".new"), ".lean") + ".notes.txt"
 	var nb strings.Builder
 	fmt.Fprintf(&nb, "Notes of harness/cmd/extract-access for %s (informational; the verdict is the kernel's evaluation of\n"+
-		"ReaderDiscipline / GlobalsInitOnly / GuardedLocations / NoGlobalEscapes in Goyang/Props/C19.lean).\n\n", strings.TrimSuffix(*out, ".new"))
+		"ReaderDiscipline / GlobalsInitOnly / GuardedLocations / NoGlobalEscapes / ImmutableLocations in Goyang/Props/C19.lean).\n\n", strings.TrimSuffix(*out, ".new"))
 	if len(diags) == 0 {
-		nb.WriteString("No offending site: the translator's own evaluation of the four predicates on this table is true.\n")
+		nb.WriteString("No offending site: the translator's own evaluation of the five predicates on this table is true.\n")
 	} else {
 		fmt.Fprintf(&nb, "%d offending site(s); each makes the named predicate false on this table:\n", len(diags))
 		for _, d := range diags {
